@@ -136,6 +136,9 @@ fn worker(args: &[String]) -> i32 {
     let nshards: u32 = arg(args, "--nshards").and_then(|s| s.parse().ok()).unwrap_or(1);
     let start = Instant::now();
     let mut ctx = Ctx::new(id, tier, seed, shard, nshards);
+    if !isolate_network() && shard == 0 {
+        ctx.note("private network namespace not available: worker processes share the host loopback");
+    }
     let violations = (def.run)(&mut ctx);
     let res = WorkerResult { stats: ctx.stats, violations, wall_s: start.elapsed().as_secs_f64() };
     println!("RVRESULT {}", serde_json::to_string(&res).unwrap());
@@ -158,6 +161,7 @@ fn replay(args: &[String]) -> i32 {
             return 2;
         }
     };
+    isolate_network();
     let def = match props::find(&rf.property) {
         Some(d) => d,
         None => return 2,
@@ -214,7 +218,8 @@ fn check(args: &[String]) -> i32 {
     let mut merged = Stats::default();
     let mut inconclusive: Vec<String> = vec![];
 
-    // 1. regression tier: committed replay files
+    // 1. regression tier: committed replay files (run in this process, in a private network namespace)
+    isolate_network();
     let mut replayed = 0u64;
     if let Ok(rd) = std::fs::read_dir(replay_dir(&id)) {
         let mut files: Vec<_> = rd.filter_map(|e| e.ok()).map(|e| e.path()).filter(|p| p.extension().map(|x| x == "json").unwrap_or(false)).collect();
